@@ -343,11 +343,50 @@ func MidRun(v *vrt.Ctx) {
 	v.Cover("C06/midrun-terminated")
 }
 
+// CroakAfterMatch: the client's input has been matched by an INCMP (by its
+// selector or by the wildcard) and so is no longer "being handled": a CROAK
+// that fires in the node moved to terminates the session, it does not go to
+// the catch node with that input reported as invalid.
+func CroakAfterMatch(v *vrt.Ctx) {
+	st := state.NewState(8)
+	ca := cache.NewCache()
+	st.Down("root")
+	ca.Push()
+	sig := 8 + uint32(v.Choice("sig", 8))
+	mode := v.Bool("mode")
+	if mode {
+		st.SetFlag(sig)
+	}
+	rs := app.NewRes()
+	rs.Node("croaker", "croaker", app.Code().Croak(sig, mode).Move("other").Bytes())
+	rs.Node("other", "other", app.Code().Halt().Bytes())
+	rs.Node("_catch", "catch", app.Code().Halt().Bytes())
+	code := app.Code()
+	if v.Choice("after-a-line-that-does-not-match", 2) == 1 {
+		code.InCmp("other", "9")
+	}
+	code.InCmp("croaker", []string{"1", "*"}[v.Choice("matched-by", 2)])
+	if v.Choice("followed-by-a-catch-all", 2) == 1 {
+		code.InCmp("other", "*")
+	}
+	st.SetInput([]byte("1"))
+	st.SetFlag(state.FLAG_READIN)
+	vmi := vm.NewVm(st, rs, ca, render.NewSizer(0))
+	rest, err := vmi.Run(context.Background(), code.Bytes())
+	v.Assert(err == nil, "C06/croak-run-ok")
+	top := st.ExecPath[len(st.ExecPath)-1]
+	v.Assert(top == "croaker", "C06/croak-after-a-match-does-not-go-to-catch")
+	v.Assert(bit(st.Flags, state.FLAG_TERMINATE), "C06/croak-after-a-match-terminates")
+	v.Assert(len(rest) == 0, "C06/croak-after-a-match-terminates")
+	v.Cover("C06/croak-after-match")
+}
+
 var Harnesses = map[string]func(*vrt.Ctx){
-	"MidRun":    MidRun,
-	"Writeable": Writeable,
-	"Refresh":   Refresh,
-	"Catch":     Catch,
-	"Croak":     Croak,
-	"Terminate": Terminate,
+	"CroakAfterMatch": CroakAfterMatch,
+	"MidRun":          MidRun,
+	"Writeable":       Writeable,
+	"Refresh":         Refresh,
+	"Catch":           Catch,
+	"Croak":           Croak,
+	"Terminate":       Terminate,
 }
